@@ -243,7 +243,7 @@ def check_case(case):
                 break
             for v in linked_dv_violations(obs.b, spec, rec):
                 res.add(v)
-            if len(res.violations) > 3:
+            if len(res.violations) > 40:
                 break
         if obs.exhaustive and not res.violations:
             for k in ref:
